@@ -20,6 +20,9 @@ package compress
 //@   ensures err != nil ==> r.pos >= len(r.data) {err-leaves-empty}
 //@   ensures err == nil ==> r.pos == 0 && len(r.data) <= maxDataSize && len(r.raw) >= headerSize {ok-shape}
 //@   ensures err == nil ==> rawVerified(r) {ok-verified}
+//@   ensures err == nil ==> r.reader.pos == old(r.reader.pos) + len(r.raw) && r.reader.failed == old(r.reader.failed) {consumes-exactly-one-frame}
+//@   ensures err == nil ==> forall k in 0..headerSize :: r.raw[k] == r.reader.in[old(r.reader.pos) + k] [C08] {frame-header-is-the-next-stream-bytes-however-they-arrive}
+//@   ensures err == nil ==> forall k in 0..len(r.raw) - headerSize :: r.raw[headerSize + k] == r.reader.in[old(r.reader.pos) + headerSize + k] [C08] {frame-body-is-the-next-stream-bytes-however-they-arrive}
 //@   ensures len(r.header) == headerSize
 //@   ensures old(r.reader.pos) <= r.reader.pos && r.reader.pos <= r.reader.end
 
